@@ -49,15 +49,17 @@ theorem addKids_exported (be : Bool) (n : MuxNode) (h : MuxOK n) (h0 : 0 ≤ n.s
     obtain ⟨hb0, hb1⟩ := child_bounds n h p.1 hc
     have hpos := kidSig_pos be n p (by have := h.w1; omega)
     have hchild : (⟨(kidSig be n p).name, sigPos (kidSig be n p) - (n.start + n.selW),
-        ((kidSig be n p).size : Int), p.1.gids⟩ : Child) = p.1 := by
+        ((kidSig be n p).size : Int), p.1.gids, (kidSig be n p).isMultiplexor⟩ : Child) = p.1 := by
       rw [hpos]
+      have e3 : (kidSig be n p).isMultiplexor = p.1.isMux := by
+        rw [h.noMux p.1 hc]; rfl
       have e1 : (kidSig be n p).name = p.1.name := rfl
       have e2 : (((kidSig be n p).size : Nat) : Int) = p.1.size := by
         show ((p.1.size.toNat : Nat) : Int) = p.1.size
         exact Int.toNat_of_nonneg (by omega)
       rw [e1, e2]
       have : n.start + n.selW + p.1.rel - (n.start + n.selW) = p.1.rel := by omega
-      rw [this]
+      rw [this, e3]
     have hfresh : ∀ d ∈ acc, d.name ≠ p.1.name := by
       intro d hd hn
       rw [List.map_append, List.nodup_append] at hnd
@@ -162,14 +164,6 @@ theorem importMux_exported (be : Bool) (n : MuxNode) (h : MuxOK n) (h0 : 0 ≤ n
 
 /-! ### the whole message -/
 
-theorem nestedRequested_false (m : DMsg)
-    (h : ((sortSigs m.sigs).filter (·.isMultiplexor)).length ≤ 1) : nestedRequested m = false := by
-  unfold nestedRequested
-  dsimp only
-  have : decide (((sortSigs m.sigs).filter (·.isMultiplexor)).length ≥ 2) = false := by
-    apply decide_eq_false; omega
-  rw [this, Bool.false_and]
-
 theorem firstLoop_ok (cap : Int) (be0 : Bool) : ∀ (l : List DSig) (seen : List String),
     (∀ s ∈ l, sigPos s + (s.size : Int) ≤ cap ∧ s.bigEndian = be0) →
     (l.map (·.name)).Nodup → (∀ s ∈ l, s.name ∉ seen) → firstLoop cap be0 seen l = .ok ()
@@ -190,28 +184,24 @@ theorem firstLoop_ok (cap : Int) (be0 : Bool) : ∀ (l : List DSig) (seen : List
     · exact hseen x (List.mem_cons_of_mem _ hx) hm
 
 theorem importMsg_eval_plain (m : DMsg) (top : List Item)
-    (hn : nestedRequested m = false)
     (hf : firstLoop (8 * (m.size : Int)) (headBE (sortSigs m.sigs)) [] (sortSigs m.sigs) = .ok ())
     (hs : m.size ≤ 8) (hm : (sortSigs m.sigs).filter (·.isMultiplexor) = [])
     (hr : importPlain (8 * (m.size : Int)) [] (sortSigs m.sigs) = .ok top) :
-    importMsg m = .ok ⟨m.id, m.size, headBE (sortSigs m.sigs), top⟩ := by
+    importMsg m = .ok ⟨m.id, m.size, headBE (sortSigs m.sigs), top, []⟩ := by
   unfold importMsg
-  rw [hn]
-  simp only [Bool.false_eq_true, if_false]
+  dsimp only
   rw [hf]
-  simp only [if_neg (by omega : ¬ m.size > 8), hm, hr]
+  simp only [if_neg (by omega : ¬ m.size > 8), hm, hr, Except.map]
 
 theorem importMsg_eval_one (m : DMsg) (top : List Item) (mx : DSig)
-    (hn : nestedRequested m = false)
     (hf : firstLoop (8 * (m.size : Int)) (headBE (sortSigs m.sigs)) [] (sortSigs m.sigs) = .ok ())
     (hs : m.size ≤ 8) (hm : (sortSigs m.sigs).filter (·.isMultiplexor) = [mx])
     (hr : importOne (8 * (m.size : Int)) m.exts mx (sortSigs m.sigs) = .ok top) :
-    importMsg m = .ok ⟨m.id, m.size, headBE (sortSigs m.sigs), top⟩ := by
+    importMsg m = .ok ⟨m.id, m.size, headBE (sortSigs m.sigs), top, []⟩ := by
   unfold importMsg
-  rw [hn]
-  simp only [Bool.false_eq_true, if_false]
+  dsimp only
   rw [hf]
-  simp only [if_neg (by omega : ¬ m.size > 8), hm, hr]
+  simp only [if_neg (by omega : ¬ m.size > 8), hm, hr, Except.map]
 
 theorem splitOne_eval (muxName : String) : ∀ (l muxed std : List DSig) (last : Int),
     (∀ s ∈ l, (s.name == muxName) = false → checkSig s = .ok ()) →
